@@ -118,11 +118,11 @@ type diamMsg struct {
 }
 
 type diamConn struct {
-	id      int
-	closed  bool
-	server  bool
-	site    string
-	kept    bool
+	id     int
+	closed bool
+	server bool
+	site   string
+	kept   bool
 }
 
 // Conns returns the ghost connection list of this path.
